@@ -28,6 +28,7 @@ import asynq.generator
 import asynq.scoped_value
 from asynq.async_task import AsyncTask
 from asynq.batching import BatchBase, BatchItemBase, DebugBatch, DebugBatchItem
+from asynq.contexts import AsyncContext, NonAsyncContext
 from asynq.futures import ConstFuture, ErrorFuture, Future
 
 A = asynq.asynq
@@ -170,8 +171,89 @@ def collapse(seq):
     return out
 
 
+class PErr(Exception):
+    pass
+
+
+class PriorBatch(BatchBase):
+    def __init__(self, fail):
+        BatchBase.__init__(self)
+        self.fail = fail
+
+    def _try_switch_active_batch(self):
+        pass
+
+    def _flush(self):
+        if self.fail:
+            raise PErr("flush")
+        for it in self.items:
+            it.set_value(1)
+
+
+class PriorItem(BatchItemBase):
+    pass
+
+
+class PriorCtx(AsyncContext):
+    """raises in its n-th resume() / pause() (n = 0: never)"""
+
+    def __init__(self, bad_resume=0, bad_pause=0):
+        self.nr = self.np = 0
+        self.bad_resume = bad_resume
+        self.bad_pause = bad_pause
+
+    def resume(self):
+        self.nr += 1
+        if self.nr == self.bad_resume:
+            raise PErr("resume")
+
+    def pause(self):
+        self.np += 1
+        if self.np == self.bad_pause:
+            raise PErr("pause")
+
+
+def run_prior(kind, handled):
+    """The earlier top-level computation of the session (DiagGlue.tla: PriorRun / PriorFlush / PriorDeliver):
+    prior_outer -> prior_inner, prior_inner awaits a batch item; ends as `kind` says.  Its outcome is not compared."""
+    b = PriorBatch(kind == "flush_exc")
+
+    @A()
+    def prior_inner():
+        if kind == "resume_raises":
+            with PriorCtx(bad_resume=2):  # entered (1st resume), paused at the yield, 2nd resume after the flush raises
+                yield PriorItem(b)
+        elif kind == "pause_raises":
+            with PriorCtx(bad_pause=1):
+                yield PriorItem(b)
+        elif kind == "nonasync":
+            with NonAsyncContext():
+                yield PriorItem(b)
+        else:
+            yield PriorItem(b)
+        if kind == "task_exc":
+            raise PErr("task")
+        return 1
+
+    @A()
+    def prior_outer():
+        if handled == "task":
+            try:
+                return (yield prior_inner.asynq())
+            except (PErr, AssertionError):
+                return "recovered"
+        return (yield prior_inner.asynq())
+
+    try:
+        prior_outer()
+    except (PErr, AssertionError):
+        pass
+
+
 def run_glue(case):
     asynq.scheduler.reset()
+    if case.get("prior", "none") != "none":
+        run_prior(case["prior"], case["phandled"])
     d, r, mode, sync, style, outer = case["d"], case["r"], case["mode"], case["sync"], case["style"], case["outer"]
     probed = None
     if case.get("deep"):
